@@ -62,6 +62,7 @@ type vfCfg struct {
 	SyncDelay     string      `json:"sync_delay,omitempty"`
 	SyncInterval  string      `json:"sync_interval,omitempty"`
 	DenyKeys      []string    `json:"deny_keys,omitempty"` // fixture key names whose fingerprints are deny-listed
+	PubKeys       []string    `json:"pub_keys,omitempty"`  // fixture key names pre-published in keymaster_public_keys_filename
 	Email         bool        `json:"email,omitempty"`
 }
 
@@ -155,6 +156,8 @@ type vfWorld struct {
 	stopOnViolation bool
 	loginAttempts   []time.Time
 
+	groupHasRightInject bool
+	injectOK      int
 	tampered      bool
 	recInfo       map[string]*vfRecInfo
 	lastRecord    map[string]string
@@ -237,6 +240,17 @@ func (w *vfWorld) writeConfig() (string, error) {
 		return "", err
 	}
 	fmt.Fprintf(&b, "  htpasswd_filename: %q\n", ht)
+	if len(c.PubKeys) > 0 {
+		var lines strings.Builder
+		for _, k := range c.PubKeys {
+			lines.WriteString(vfKey(k).sshPub())
+		}
+		pk := filepath.Join(w.dir, "keymaster_public_keys")
+		if err := os.WriteFile(pk, []byte(lines.String()), 0o644); err != nil {
+			return "", err
+		}
+		fmt.Fprintf(&b, "  keymaster_public_keys_filename: %q\n", pk)
+	}
 	if len(c.SSHExt) > 0 {
 		b.WriteString("  ssh_cert_config:\n    extensions:\n")
 		for _, e := range c.SSHExt {
